@@ -82,6 +82,9 @@ impl Ntv2Grid {
         let mut current_grid_id: String = "NONE".to_string();
         let mut queue = self.lookup_table.get(&current_grid_id).unwrap().clone();
 
+        // A well formed hierarchy cannot be deeper than the number of sub-grids
+        let mut levels = 0_usize;
+
         while let Some(grid_id) = queue.pop() {
             // Unwrapping is safe because a panic means we didn't
             // properly populate the `lookup_table` & `subgrids` properties
@@ -100,6 +103,11 @@ impl Ntv2Grid {
                 current_grid_id.clone_from(&grid_id);
 
                 if let Some(children) = self.lookup_table.get(&current_grid_id) {
+                    levels += 1;
+                    if levels > self.subgrids.len() {
+                        // Cyclic parent/child relations: malformed file
+                        return None;
+                    }
                     queue.clone_from(children);
                 } else {
                     // If we get here it means the current_parent_id has no children and we've found the grid
